@@ -334,6 +334,21 @@ def make_case(rng, k, flavor="mixed", pattern=None, big=None, cellkind=None):
                 pos.append(p)
                 els.append(rng.choice(el))
                 distract += 1
+    if flavor == "crowded" and pos:
+        # a few hundred further atoms of elements the pattern does not contain (size-dependent code paths)
+        others = [e for e in ["Xe", "Ar", "Kr", "He", "Ne", "Rn"] if e not in el]
+        for _ in range(rng.randint(250, 400)):
+            p = grid(np.array([rng.random() for _ in range(3)]) @ cell)
+            ff = p @ inv
+            if ff.min() > 1e-9 and ff.max() < 1 - 1e-9:
+                pos.append(p)
+                els.append(rng.choice(others))
+        perm = list(range(len(pos)))
+        rng.shuffle(perm)
+        newidx = {old: new for new, old in enumerate(perm)}
+        pos = [pos[i] for i in perm]
+        els = [els[i] for i in perm]
+        planted = [tuple(newidx[i] for i in t) for t in planted]
     if not pos:
         return None
     if flavor == "shuffled":
